@@ -431,7 +431,12 @@ class FTPProcessorSession(BaseProcessorSession):
 
         Coroutine.
         '''
-        files = yield from self._fetch_parent_path(request)
+        try:
+            files = yield from self._fetch_parent_path(request)
+        except REMOTE_ERRORS as error:
+            # The file itself has been fetched; only the listing failed
+            self._log_error(request, error)
+            return
 
         if not files:
             return
